@@ -52,3 +52,18 @@ Theorem C03_periodic_rows_vs_wrap : forall (F : FieldOps) (L : FieldLaws F) (m :
   kadd F (ksub F p1 pN) (kmul F r (ksub F pN p1)) = kmul F (ksub F (k1 F) r) (ksub F p1 pN).
 Proof. intros F L m p1 pN r. exact (periodic_rows_vs_wrap F L m p1 pN r). Qed.
 Print Assumptions C03_periodic_rows_vs_wrap.
+
+(* two fields satisfying the same non-periodic boundary rows differ across every boundary face by z_ghost = rho * z_inner, rho <= 1;
+   every neighbour of an interior cell is an interior cell or such a face ghost cell (Theory/ClosureThy.v) *)
+From Coq Require Import Reals.
+From PFV Require Import ConservThy MaxPrincipleThy MaxPrincipleModel ComparisonThy ClosureThy.
+Theorem C03_closure_from_rows : forall (m : Mesh ROps) (bc : BCs ROps) (x e : cvar ROps),
+  bc_sign_ok m bc -> bc_rows m bc x -> bc_rows m bc e ->
+  forall c a, In c (interior_cells ROps m) -> In a (active_axes ROps m) ->
+    nb_homog (interior_cells ROps m) (fun c => (x c - e c)%R) c (cdn a c) /\
+    nb_homog (interior_cells ROps m) (fun c => (x c - e c)%R) c (cup a c).
+Proof. exact closure_from_rows. Qed.
+Theorem C03_numbering_round_trip : forall (F : FieldOps) (m : Mesh F) (c : cell), wfcell F m c -> cell_of_no F m (cellno F m c) = c.
+Proof. exact cell_of_no_cellno. Qed.
+Print Assumptions C03_closure_from_rows.
+Print Assumptions C03_numbering_round_trip.
